@@ -182,8 +182,14 @@ class Intrinsics:
                     return SInt(ta + tb)
                 if ex.prove_now(z3.And(tb % m == 0, ta >= 0, ta < m)):
                     return SInt(ta + tb)
-            # exact fallback for provably small non-negative operands: through bit-vectors
-            for bits in (8, 16, 24):
+            # not provably disjoint: split on disjointness (cheap sum on one side, exact encoding on the other)
+            for k in (4, 10, 8, 16):
+                m = _pow2(k)
+                if ex.prove_now(z3.And(tb >= 0, tb < m, ta >= 0)) and not ex.pure:
+                    if ex.decide(ta % m == 0):
+                        return SInt(ta + tb)
+                    break
+            for bits in (8,):
                 lim = _pow2(bits)
                 if ex.prove_now(z3.And(ta >= 0, ta < lim, tb >= 0, tb < lim)):
                     self.use("a | b on small non-negative ints by bit decomposition with div/mod by constants (exact)")
@@ -193,6 +199,10 @@ class Intrinsics:
                         bb = (tb / _pow2(i)) % 2
                         acc = acc + z3.If(z3.Or(ba == 1, bb == 1), _pow2(i), 0)
                     return SInt(acc)
+            if not ex.pure:
+                r = ex.over_approximate("bitor", "int", "a | b with overlapping bit ranges read as an unconstrained int >= max(a, b)")
+                ex.assume(z3.And(r.t >= ta, r.t >= tb, r.t <= ta + tb))
+                return r
             raise Unsupported("| without provable disjoint bit ranges")
         if isinstance(op, ast.Pow):
             if isinstance(b, int) and 0 <= b <= 8:
